@@ -46,7 +46,12 @@ def main() -> int:
         ids = []
         for m in missing:
             mod, name = m.split("::", 1)
-            ids.append(mod.replace(".", "/") + ".py::" + name)
+            parts = mod.split(".")
+            # the junit classname is module[.TestClass]: the longest prefix that is a file
+            n = len(parts)
+            while n > 1 and not os.path.exists(os.path.join(repo, *parts[:n]) + ".py"):
+                n -= 1
+            ids.append("/".join(parts[:n]) + ".py::" + "::".join(parts[n:] + [name]))
         fd, xml2 = tempfile.mkstemp(suffix=".xml", dir="/dev/shm")
         os.close(fd)
         subprocess.run(cmd[:-1] + [f"--junitxml={xml2}"] + ids, cwd=repo, env=env,
